@@ -226,6 +226,13 @@ def saves_and_monitors(ctx, rng, idx):
     t5, _, log5 = _traj(S4.solve, s.field, cfl, stop={"maxit": N}, monitors=mons, directives=dict(dirs))
     _check_monitor_records(ctx, s, log5, cmons, before, iname)
     ctx.true("monitors-attached", len(t5) == len(base) and all(_same(a, b) for a, b in zip(base, t5)), "monitors/trajectory-changed-by-constructor-and-call-monitors/" + who, None, cls="monitors-attached")
+    # the remaining options of solve(): progress printing ('verbose' directive) and dumping every iteration to a file (flush)
+    if not isinstance(s, _Scn2D):
+        import contextlib, io, os, tempfile
+        with tempfile.TemporaryDirectory() as td, contextlib.redirect_stdout(io.StringIO()):
+            t6, _, _ = _traj(make().solve, s.field, cfl, tsave, stop={"maxit": N, "tottime": 1e30}, flush=os.path.join(td, "all.npy"), directives=dict(dirs, verbose=True))
+        ok = len(t6) == len(base) and all(_same(a, b) for a, b in zip(base, t6))
+        ctx.true("extra-saves", ok, "saves/trajectory-changed-by-verbose-or-flush/" + who, {"first differing iteration": next((k for k, (a, b) in enumerate(zip(base, t6)) if not _same(a, b)), None)}, cls="extra-saves")
     # both, on the object that already ran
     t3, _, log3 = _traj(S.solve, s.field, cfl, tsave, stop={"maxit": N, "tottime": 1e30}, monitors=mons, directives=dict(dirs))
     ok = len(t3) == len(base) and all(_same(a, b) for a, b in zip(base, t3))
